@@ -45,8 +45,18 @@ func TestDevOne(t *testing.T) {
 	seed, _ := strconv.ParseUint(os.Getenv("FS_ONESEED"), 10, 64)
 	rig := Describe()
 	tape := kernel.NewTape(seed)
-	r1 := kernel.Execute(t, rig, kernel.Quick, tape, nil)
-	r2 := kernel.Execute(t, rig, kernel.Quick, kernel.ReplayTape(seed, tape.Streams()), nil)
+	tier := kernel.Quick
+	if os.Getenv("FS_TIER") == "thorough" {
+		tier = kernel.Thorough
+	}
+	if os.Getenv("FS_TRACE") != "" {
+		traceCap = 400
+	}
+	if ms := envInt("FS_POLL_MS", 0); ms > 0 {
+		pollStep = time.Duration(ms) * time.Millisecond
+	}
+	r1 := kernel.Execute(t, rig, tier, tape, nil)
+	r2 := kernel.Execute(t, rig, tier, kernel.ReplayTape(seed, tape.Streams()), nil)
 	for i, r := range []*kernel.Result{r1, r2} {
 		js, _ := json.MarshalIndent(r.Sample, "", " ")
 		fmt.Printf("RUN %d: %s\n%s\n", i, digest(r), js)
